@@ -1,24 +1,22 @@
-import Ypv.Spec.Edit
+import Ypv.Lemmas.EditCreate
 /-!
 # C09 — queries never modify the document; creation adds exactly the missing path
 
 Purity of reads is checked DIRECTLY on the real code by the harness (deep snapshots around
 `exists()` / `get_nodes()`); in this functional model a query has no document to return, so there
 is nothing to prove about it.  The theorems below are about the creation block of
-`_get_optional_nodes` (`Ypv.createHere` / `fill` / `buildNext` in `Model/Edit.lean`) at the node
-where the first missing segment is created.
+`_get_optional_nodes` (`Ypv.createPath` / `createHere` / `fill` / `buildNext` in `Model/Edit.lean`):
+`create_exact` lifts the block through the existing prefix of the path to a graft at the deepest
+existing node (`Node.graftAt`, `Follows`, `CreateOutcome` in `Spec/Edit.lean`), `create_resolves`,
+`create_frame` and `create_seq_growth` / `create_map_growth` say what the graft is and leaves alone.
 -/
 namespace Ypv.C09
 open Ypv
 
-/-- FULL STATEMENT (not proved): `createPath leaf d segs = .ok ⟨d.graftAt (fun n => createHere n seg rest leaf) q, …⟩`
-where `q` is the address of the deepest existing node and `seg :: rest` the missing tail.
-**create_exact_partial (sequence).** Creating index `i ≥ len` in a sequence appends exactly
+/-- **create_seq_growth.** Creating index `i ≥ len` in a sequence appends exactly
 `i + 1 - len` elements: the padding defaults and, last, the filled spine; the sequence grows to
-exactly `i + 1`; every element that existed keeps its position and content.
-Missing for the full statement: lifting through the existing prefix (`createList`/`createEntries`
-recursion = `graftAt`). -/
-theorem create_exact_partial_seq (a : Option Str) (items : List Node) (seg : PSeg) (rest : List PSeg)
+exactly `i + 1`; every element that existed keeps its position and content. -/
+theorem create_seq_growth (a : Option Str) (items : List Node) (seg : PSeg) (rest : List PSeg)
     (leaf : Scalar) (i : Int) (c : Node)
     (hi : intOfSeg seg = some i) (h0 : 0 ≤ i) (hlen : items.length ≤ i.toNat) (hf : fill rest leaf = .ok c) :
     ∃ items', createHere (.seq a items) seg rest leaf = .ok (.seq a items')
@@ -36,9 +34,9 @@ theorem create_exact_partial_seq (a : Option Str) (items : List Node) (seg : PSe
       simp; omega
     rw [this]; rfl
 
-/-- **create_exact_partial (mapping).** Creating a missing key appends exactly one entry, keyed by
+/-- **create_map_growth.** Creating a missing key appends exactly one entry, keyed by
 the segment text, holding the filled spine; every entry that existed is unchanged, in order. -/
-theorem create_exact_partial_map (a : Option Str) (es : List (Key × Node)) (s : Str) (rest : List PSeg)
+theorem create_map_growth (a : Option Str) (es : List (Key × Node)) (s : Str) (rest : List PSeg)
     (leaf : Scalar) (c : Node) (hf : fill rest leaf = .ok c) :
     createHere (.map a es) (.key s) rest leaf = .ok (.map a (es ++ [(.str s, c)])) := by
   simp [createHere, hf]
@@ -73,6 +71,76 @@ theorem create_nothing_when_present (leaf : Scalar) (n : Node) :
     n.createPath leaf [] = .ok ⟨n, []⟩ := by
   cases n <;> simp [Node.createPath]
 
+/-- **create_exact.**  For every document and every straight-line key/index path, a successful
+`_get_optional_nodes` did exactly one of three things (`CreateOutcome`):
+* `present` — every segment resolved (`Follows`): the document is unchanged and the node at the end
+  of the path is handed out;
+* `nullRelay` — a `null` met on the way is handed out, the document is unchanged (finding C09-F2);
+* `created` — the prefix `pre` resolves to the node `n` at address `q`, the next segment `seg` is missing
+  in `n`, and the new document is the original with EXACTLY the node at `q` replaced by
+  `createHere n seg rest` (`d.graftAt (fun _ => n') q`); the address handed out is
+  `q ++ createdRef n seg :: fillAddr rest`. -/
+theorem create_exact (leaf : Scalar) (d : Node) (segs : List PSeg) (r : Created)
+    (h : d.createPath leaf segs = .ok r) : CreateOutcome leaf d segs r :=
+  createPath_outcome leaf segs d r h
+
+/-- **create_resolves.**  In the `created` outcome the path that did not exist before
+(`q ++ [createdRef n seg]` led nowhere) now selects the node holding exactly the supplied value. -/
+theorem create_resolves {leaf : Scalar} {d : Node} {pre : List PSeg} {seg : PSeg} {rest : List PSeg}
+    {q : Addr} {n n' : Node} (hf : Follows d pre q n) (hl : lookSeg n seg = .missing)
+    (hc : createHere n seg rest leaf = .ok n') :
+    (d.graftAt (fun _ => n') q).get? (q ++ createdRef n seg :: fillAddr rest) = some (.scalar none leaf)
+    ∧ ∀ z, d.get? (q ++ createdRef n seg :: z) = none := by
+  obtain ⟨_, _, hfree, sp, hsp, hnew⟩ := createHere_spec hl hc
+  constructor
+  · rw [hf.get?_graftAt, get?_cons, hnew]
+    exact fill_resolves rest leaf sp hsp
+  · intro z
+    rw [get?_append q d n _ hf.get?, get?_cons, hfree]
+
+/-- **create_frame.**  In the `created` outcome every address that led to a node before and does not
+lie on the way from the root to the grafted node `q` (the spine, whose nodes necessarily contain the
+new content) leads to the SAME node afterwards: siblings, cousins, and everything that already
+existed below `q` (earlier elements of a padded sequence, the other entries of a mapping). -/
+theorem create_frame {leaf : Scalar} {d : Node} {pre : List PSeg} {seg : PSeg} {rest : List PSeg}
+    {q : Addr} {n n' : Node} (hf : Follows d pre q n) (hl : lookSeg n seg = .missing)
+    (hc : createHere n seg rest leaf = .ok n') (y : Addr) (m : Node) (hy : ¬ y <+: q)
+    (hg : d.get? y = some m) : (d.graftAt (fun _ => n') q).get? y = some m := by
+  by_cases hq : q <+: y
+  · obtain ⟨z, rfl⟩ := hq
+    have hz : z ≠ [] := by intro e; subst e; simp at hy
+    rw [hf.get?_graftAt]
+    rw [get?_append q d n z hf.get?] at hg
+    exact createHere_get? hl hc z hz m hg
+  · rw [get?_graftAt_frame _ q d y hy hq]; exact hg
+
+/-- The spine keeps its anchors: the grafted node carries the anchor of the node it replaces. -/
+theorem create_keeps_anchor {leaf : Scalar} {n n' : Node} {seg : PSeg} {rest : List PSeg}
+    (hl : lookSeg n seg = .missing) (hc : createHere n seg rest leaf = .ok n') : n'.anchor = n.anchor :=
+  (createHere_spec hl hc).1
+
+/-- **create_exact_summary.**  All of it in one statement about `_get_optional_nodes`: either nothing
+changed and the address handed out existed already; or there is an address `q` (the deepest existing
+node) such that the path handed out lies below `q`, did not exist before, now selects the node
+holding exactly the value, and every pre-existing address not on the way to `q` keeps its node. -/
+theorem create_exact_summary (leaf : Scalar) (d : Node) (segs : List PSeg) (r : Created)
+    (h : d.createPath leaf segs = .ok r) :
+    (r.doc = d ∧ ∃ n, d.get? r.addr = some n)
+    ∨ ∃ q, q <+: r.addr ∧ (d.get? q).isSome ∧ d.get? r.addr = none
+        ∧ r.doc.get? r.addr = some (.scalar none leaf)
+        ∧ ∀ y m, ¬ y <+: q → d.get? y = some m → r.doc.get? y = some m := by
+  cases create_exact leaf d segs r h with
+  | present n hf hd => exact Or.inl ⟨hd, n, hf.get?⟩
+  | nullRelay pre seg rest q n ref _ hf _ hch hd ha =>
+    refine Or.inl ⟨hd, .scalar none .null, ?_⟩
+    rw [ha, get?_append q d n _ hf.get?, get?_cons, hch]; rfl
+  | created pre seg rest q n n' _ hf hl hc hd ha =>
+    right
+    obtain ⟨h1, h2⟩ := create_resolves hf hl hc
+    refine ⟨q, ⟨_, ha.symm⟩, by simp [hf.get?], by rw [ha]; exact h2 _, by rw [ha, hd]; exact h1, ?_⟩
+    intro y m hy hg
+    rw [hd]; exact create_frame hf hl hc y m hy hg
+
 /-! ### Concrete witnesses -/
 
 /-- `l: [1]`, create `l[2].k[1] = x`: padded with the defaults of the following segment -/
@@ -84,6 +152,21 @@ example : setOrCreate (.map none [(.str ['l'], .seq none [.scalar none (.int 1)]
 /-- known finding C09-F2: a null on the way is relayed and overwritten; the tail is not created -/
 example : setOrCreate (.map none [(.str ['a'], .scalar none .null)]) [.key ['a'], .key ['b'], .key ['c']] (.int 5) .default
     = .ok (.map none [(.str ['a'], .scalar none (.int 5))]) := by
+  decide +kernel
+
+/-- the hypotheses of `create_resolves` / `create_frame` on a concrete document: `l: [1]`, `m: 7`,
+create `l[2].k`: the prefix `l` exists, index 2 is missing in `[1]`, the sequence is padded with one
+default (`{}`) and the spine `{k: x}`; `m` and `l[0]` keep their nodes. -/
+def docL : Node := .map none [(.str ['l'], .seq none [.scalar none (.int 1)]), (.str ['m'], .scalar none (.int 7))]
+def seqL' : Node := .seq none [.scalar none (.int 1), .map none [], .map none [(.str ['k'], .scalar none (.str ['x']))]]
+example : Follows docL [.key ['l']] [.key (.str ['l'])] (.seq none [.scalar none (.int 1)]) :=
+  Follows.step (c := .seq none [.scalar none (.int 1)]) rfl rfl (by decide) (Follows.here _)
+example : lookSeg (.seq none [.scalar none (.int 1)]) (.index 2) = .missing := rfl
+example : createHere (.seq none [.scalar none (.int 1)]) (.index 2) [.key ['k']] (.str ['x']) = .ok seqL' := by
+  decide +kernel
+example : (docL.createPath (.str ['x']) [.key ['l'], .index 2, .key ['k']]).map (·.doc)
+    = .ok (docL.graftAt (fun _ => seqL') [.key (.str ['l'])]) := by decide +kernel
+example : (docL.graftAt (fun _ => seqL') [.key (.str ['l'])]).get? [.key (.str ['m'])] = docL.get? [.key (.str ['m'])] := by
   decide +kernel
 
 end Ypv.C09
